@@ -519,3 +519,78 @@ pub fn tt_of(nodes: &[adf_bdd::datatypes::BddNode], root: Term, nvars: usize) ->
 pub fn var(i: usize) -> Var {
     Var(i)
 }
+
+
+/// answers taken from ONE parser object that is re-sorted between instantiations
+/// (parse once; instantiate; sort; instantiate again; ...). Everything is evaluated before the next
+/// sort, because sorting may invalidate what was built before (documented), but not what is built after.
+pub struct StageAnswers {
+    pub sort: Sort,
+    pub names: Vec<String>,
+    pub grounded: Vec<(&'static str, Vec<Term>)>,
+    pub complete: Vec<(&'static str, Models)>,
+    pub stable: Vec<(&'static str, Models)>,
+    /// root handles and node table of the native object (for the per-statement function check)
+    pub native_ac: Vec<Term>,
+    pub native_nodes: Vec<adf_bdd::datatypes::BddNode>,
+    pub bridged_ac: Vec<Term>,
+    pub bridged_nodes: Vec<adf_bdd::datatypes::BddNode>,
+}
+
+pub fn reused_parser_stages(text: &str, sorts: &[Sort], with_bio: bool) -> Result<Vec<StageAnswers>, BuildErr> {
+    let r = guarded(SMALL_BUDGET * 10, || {
+        let parser = AdfParser::default();
+        if let Err(e) = parser.parse()(text) {
+            return Err(format!("{}", e));
+        }
+        let mut out = Vec::new();
+        for sort in sorts {
+            match sort {
+                Sort::None => {}
+                Sort::Lexi => {
+                    parser.varsort_lexi();
+                }
+                Sort::Alnum => {
+                    parser.varsort_alphanum();
+                }
+            }
+            let mut native = Adf::from_parser(&parser);
+            let names = native.ordering.names().read().unwrap().clone();
+            let native_ac = native.ac.clone();
+            let native_nodes = native.bdd.nodes.clone();
+            let mut grounded = vec![("native", native.grounded())];
+            let mut complete = vec![("native", native.complete().collect::<Vec<_>>())];
+            let mut stable = vec![("native", native.stable().collect::<Vec<_>>())];
+            let (mut bridged_ac, mut bridged_nodes) = (Vec::new(), Vec::new());
+            if with_bio {
+                let bio = BdAdf::from_parser_with_stm_rewrite(&parser);
+                grounded.push(("biodivine", bio.grounded()));
+                complete.push(("biodivine", bio.complete().collect()));
+                stable.push(("biodivine", bio.stable().collect()));
+                stable.push(("biodivine.rewrite", bio.stable_bdd_representation()));
+                let mut hy = bio.hybrid_step_opt(false);
+                bridged_ac = hy.ac.clone();
+                bridged_nodes = hy.bdd.nodes.clone();
+                grounded.push(("hybrid", hy.grounded()));
+                stable.push(("hybrid", hy.stable().collect()));
+            }
+            out.push(StageAnswers {
+                sort: *sort,
+                names,
+                grounded,
+                complete,
+                stable,
+                native_ac,
+                native_nodes,
+                bridged_ac,
+                bridged_nodes,
+            });
+        }
+        Ok(out)
+    });
+    match r {
+        Ok(Ok(o)) => Ok(o),
+        Ok(Err(e)) => Err(BuildErr::Parse(e)),
+        Err(c) => Err(BuildErr::Caught(c)),
+    }
+}
